@@ -196,6 +196,12 @@ func (p *Program) Extract(s Site) (val string, pos string, fn *ssa.Function, err
 // fact than textual equality.
 func recipeEquivalent(key, got, want string) bool {
 	switch key {
+	case "plugin.ParseRecipient.name":
+		// the prefix removed by slicing after the prefix test instead of TrimPrefix (the facts
+		// recipe of the same function requires the HasPrefix guard)
+		if got == `Slice(bech32.Decode(P1).0, 4, _)` && want == `strings.TrimPrefix(bech32.Decode(P1).0, "age1")` {
+			return true
+		}
 	case "stream.readChunk.Open.dst":
 		// the plaintext buffer: an empty slice with room for a chunk that is not the ciphertext
 		// buffer r.buf (decrypting in place would destroy the input of the retry-as-final Open)
